@@ -10,6 +10,7 @@ import (
 	"io"
 	"net"
 	"os"
+	"path/filepath"
 	"strconv"
 	"strings"
 	"sync"
@@ -106,6 +107,16 @@ func runRelayScenario(seed uint64, size int, t *Trace) error {
 	if start > 500 && r.Chance(50) {
 		origin = start - uint32(r.Intn(400))
 	}
+	// an outage: several days of readings, one per slot, none of which reaches the server. More slots are
+	// missing than fit the acceptance window; the ones inside it have to be recovered all the same
+	outage := seed%6 == 4
+	if outage {
+		if start > 60 {
+			origin = start - uint32(r.Intn(50))
+		}
+		size = 650 + r.Intn(250)
+		t.Count("relay.outage")
+	}
 	dir := freshDir("relayc")
 	defer os.RemoveAll(dir)
 	if err := writeClientDir(ClientDir{Dir: dir, Key: dev, GCAPub: s.E.GCA.Pub, ShortID: 1, Servers: servers, HistoryOffset: origin}); err != nil {
@@ -121,8 +132,13 @@ func runRelayScenario(seed uint64, size int, t *Trace) error {
 	now := start
 	// ---- the device produces readings over time; each original datagram is lost, delivered, duplicated or delayed
 	var delayed [][]byte
+	var saved [][2]uint32
 	for i := 0; i < size; i++ {
-		now += uint32(r.Intn(40))
+		if outage {
+			now++
+		} else {
+			now += uint32(r.Intn(40))
+		}
 		s.SetNow(now)
 		if r.Chance(10) && s.E.S != nil {
 			// rotation (if due) or a server restart in between
@@ -145,10 +161,16 @@ func runRelayScenario(seed uint64, size int, t *Trace) error {
 			continue
 		}
 		t.Line("cl.hist.save ts=%d v=%d => ok %s", ts, v, histCanon(dir))
+		saved = append(saved, [2]uint32{ts, v})
 		if ts > latest {
 			latest = ts
 		}
 		c.VerifSendReport(gcas, client.EnergyRecord{Timeslot: ts, Energy: signExt32(v)})
+		if outage {
+			sink.take()
+			t.Count("relay.lost")
+			continue
+		}
 		sink.settle(3*time.Millisecond, 100*time.Millisecond)
 		for _, p := range sink.take() {
 			switch r.pick([]int{45, 30, 10, 15}) {
@@ -195,10 +217,29 @@ func runRelayScenario(seed uint64, size int, t *Trace) error {
 		t.Count("relay.banned-servers-on-record")
 	}
 	failing := r.Intn(3)
-	for round := 0; round <= failing; round++ {
-		final := round == failing
+	// sometimes one more round before the last: the path is fine, but the history store cannot be read
+	// (I/O errors), while the meter's file meanwhile says something else for every slot. What cannot be
+	// read from the store is not retransmitted - least of all from another source
+	extra := 0
+	if r.Chance(20) {
+		extra = 1
+	}
+	for round := 0; round <= failing+extra; round++ {
+		final := round == failing+extra
+		rf := extra == 1 && round == failing
+		var restore func()
+		if rf {
+			var sb strings.Builder
+			sb.WriteString("timestamp,energy (mWh)\n")
+			for _, x := range saved {
+				sb.WriteString(fmt.Sprintf("%d,%d\n", int64(glow.GenesisTime)+300*int64(x[0])+7, int64(x[1]%100000)+1))
+			}
+			os.WriteFile(filepath.Join(dir, client.EnergyFile), []byte(sb.String()), 0644)
+			restore, _ = c.VerifBreakHistoryReads()
+			t.Count("relay.round-under-read-faults")
+		}
 		proxy.mu.Lock()
-		proxy.fail = !final
+		proxy.fail = !final && !rf
 		proxy.conns = 0
 		proxy.last = nil
 		proxy.mu.Unlock()
@@ -207,6 +248,9 @@ func runRelayScenario(seed uint64, size int, t *Trace) error {
 		t0 := time.Now().Unix()
 		ok := c.VerifSyncRound(latest)
 		sink.settle(40*time.Millisecond, 600*time.Millisecond)
+		if restore != nil {
+			restore()
+		}
 		if time.Now().Unix() != t0 {
 			t.Count("relay.clock-ambiguous")
 		}
@@ -215,7 +259,7 @@ func runRelayScenario(seed uint64, size int, t *Trace) error {
 		proxy.mu.Unlock()
 		var choices []string
 		for k := 0; k < conns; k++ {
-			if final && k == conns-1 && reply != nil {
+			if (final || rf) && k == conns-1 && reply != nil {
 				replyOracle(t, seen, reply, dev.Pub, s.E.GCA.Pub, srvKey)
 				choices = append(choices, hx(srvKey[:])+":ok:"+hx(reply))
 			} else {
@@ -242,7 +286,11 @@ func runRelayScenario(seed uint64, size int, t *Trace) error {
 		}
 		after := c.VerifState()
 		t.Count("relay.round:" + res)
-		t.Line("cl.round latest=%d now=%d choices=%s => %s lockfree=%d sigs=true gk=%s id=%d servers=%s disk=[%s] resent=%s primary=%s", latest, t0, strings.Join(choices, ";"),
+		rfArg := ""
+		if rf {
+			rfArg = " readfault=1"
+		}
+		t.Line("cl.round latest=%d now=%d choices=%s%s => %s lockfree=%d sigs=true gk=%s id=%d servers=%s disk=[%s] resent=%s primary=%s", latest, t0, strings.Join(choices, ";"), rfArg,
 			res, lf, hx(after.GCAPubKey[:]), after.ShortID, canonClientServers(after.Servers), canonClientDisk(dir), strings.Join(resent, ","), hx(after.PrimaryServer[:]))
 		if final && !ok {
 			// nothing stood between the real client and the real server in this round: the reply of a correct
